@@ -202,16 +202,21 @@ func (w *c11World) c11CreatePool(ctx sdk.Context, denom string, std, tok *big.In
 
 // ---------------------------------------------------------------- packets
 
-func (w *c11World) c11Packet(d c11Denom, channel, amount, sender, receiver string) channeltypes.Packet {
+// src is the counterparty's channel id (packet.SourceChannel), chosen independently of the local
+// (destination) channel; "" = c11SrcChannel
+func (w *c11World) c11Packet(d c11Denom, src, channel, amount, sender, receiver string) channeltypes.Packet {
+	if src == "" {
+		src = c11SrcChannel
+	}
 	dataDenom, dst := d.Base, channel
 	if d.Voucher {
 		dst = d.Channel
 	} else {
-		dataDenom = "transfer/" + c11SrcChannel + "/" + d.Base // a coin of this chain coming home
+		dataDenom = "transfer/" + src + "/" + d.Base // a coin of this chain coming home
 	}
 	data := transfertypes.NewFungibleTokenPacketData(dataDenom, amount, sender, receiver, "")
 	bz := transfertypes.ModuleCdc.MustMarshalJSON(&data)
-	return channeltypes.NewPacket(bz, 1, transfertypes.PortID, c11SrcChannel, transfertypes.PortID, dst, clienttypes.NewHeight(0, 100), 0)
+	return channeltypes.NewPacket(bz, 1, transfertypes.PortID, src, transfertypes.PortID, dst, clienttypes.NewHeight(0, 100), 0)
 }
 
 // ---------------------------------------------------------------- observation
